@@ -38,11 +38,11 @@ type Script struct {
 	fresh     map[string]bool              // terms denoting references allocated by this execution (pairwise distinct)
 	defs      map[string]string            // defined name -> body (definitions without binders)
 	elemFacts map[string]map[string]string // declared array -> literal index -> element term
-	lines    []string
-	declared map[string]string // name -> sort text ("" for functions)
-	n        int
-	binders  []binder
-	bytes    int
+	lines     []string
+	declared  map[string]string // name -> sort text ("" for functions)
+	n         int
+	binders   []binder
+	bytes     int
 }
 
 func newScript() *Script {
@@ -291,8 +291,8 @@ func eq(a, b string) string {
 	return "(= " + a + " " + b + ")"
 }
 
-func sel(a, i string) string      { return "(select " + a + " " + i + ")" }
-func sto(a, i, v string) string   { return "(store " + a + " " + i + " " + v + ")" }
+func sel(a, i string) string            { return "(select " + a + " " + i + ")" }
+func sto(a, i, v string) string         { return "(store " + a + " " + i + " " + v + ")" }
 func app(f string, xs ...string) string { return "(" + f + " " + strings.Join(xs, " ") + ")" }
 
 // ---- term simplification (select over store / ite / constant arrays) ----
